@@ -1,5 +1,6 @@
 import OAuth2Model.Driver.Proto
 import OAuth2Model.Driver.Req
+import OAuth2Model.Driver.Cfg
 
 def dispatch (line : String) : String :=
   match (line.trimAscii.toString.splitOn " ").filter (· ≠ "") with
@@ -7,6 +8,7 @@ def dispatch (line : String) : String :=
   | op :: args =>
     match op with
     | "req" => Drv.ReqOp.run args
+    | "cfg" => Drv.CfgOp.run args
     | _ => "bad-op"
 
 partial def loop (h : IO.FS.Stream) (out : IO.FS.Stream) : IO Unit := do
